@@ -119,10 +119,7 @@ def showLease (l : Lease) : String :=
 def showLeases (b : Bucket) : String :=
   if b.isEmpty then "_" else
   "/".intercalate (b.map fun (n, f) =>
-    let ls := match kindOf f with
-      | .mutable => Mutable.getLeases f
-      | .immutable => ImmL.getLeases f
-      | .other => []
+    let ls := leasesOf f
     s!"{n}=[" ++ ",".intercalate (ls.map showLease) ++ "]")
 
 def showDump (b : Bucket) : String :=
